@@ -14,14 +14,21 @@ package main
 import (
 	"bufio"
 	"bytes"
+	"context"
 	"crypto/sha256"
 	"encoding/binary"
 	"encoding/json"
 	"flag"
+	"io"
+	"net"
 	"os"
+	"sync"
 	"time"
 
+	"github.com/scionproto/scion/gateway/control"
 	"github.com/scionproto/scion/gateway/dataplane"
+	"github.com/scionproto/scion/pkg/addr"
+	"github.com/scionproto/scion/pkg/snet"
 
 	"verifharness/internal/vt"
 )
@@ -40,6 +47,8 @@ type step struct {
 }
 
 type streamSpec struct {
+	Src  int       `json:"src"`  // ingress mode: index of the remote gateway (ISD-AS, host) the frames come from
+	Sess int       `json:"sess"` // ingress mode: session id (0: stream number)
 	MTU  int       `json:"mtu"`
 	Pkts []pktSpec `json:"pkts"`
 	Plan []step    `json:"plan"`
@@ -138,10 +147,20 @@ func run(w *vt.Writer, sc *scenario, scn int) {
 	for i, st := range sc.Streams {
 		caps[i] = st.MTU - 16
 	}
-	w.Emit(vt.M{"ev": "reset", "scn": scn, "mode": sc.Mode, "cap": dataplane.VerifReassemblyListCap, "F": caps})
+	devOf := make([]int, nstreams)
+	for i, st := range sc.Streams {
+		if st.Src == 3 {
+			devOf[i] = 2
+		} else {
+			devOf[i] = 1
+		}
+	}
+	w.Emit(vt.M{"ev": "reset", "scn": scn, "mode": sc.Mode, "cap": dataplane.VerifReassemblyListCap, "F": caps,
+		"dev": devOf})
 	byHash := map[[32]byte]pktID{}
 	frames := make([][]frameRec, nstreams)
 	epochs := make([]int, nstreams)
+	sessIDs := make([]int, nstreams)
 	panicked := false
 	func() {
 		defer func() {
@@ -157,7 +176,12 @@ func run(w *vt.Writer, sc *scenario, scn int) {
 				streamID = 0x1007
 			}
 			epochs[si] = int(streamID & 0xfffff)
-			enc := dataplane.VerifNewEncoder(uint8(s), streamID, uint16(st.MTU))
+			sess := uint8(s)
+			if st.Sess != 0 {
+				sess = uint8(st.Sess)
+			}
+			sessIDs[si] = int(sess)
+			enc := dataplane.VerifNewEncoder(sess, streamID, uint16(st.MTU))
 			var stream []byte // the valid packets, concatenated
 			framed := 0
 			next := 0
@@ -171,7 +195,7 @@ func run(w *vt.Writer, sc *scenario, scn int) {
 					pos = k
 				}
 				hdrok := 0
-				if fr[0] == 0 && int(fr[1]) == s && int(binary.BigEndian.Uint32(fr[4:8])) == epochs[si] {
+				if fr[0] == 0 && int(fr[1]) == sessIDs[si] && int(binary.BigEndian.Uint32(fr[4:8])) == epochs[si] {
 					hdrok = 1
 				}
 				w.Emit(vt.M{"ev": "frame", "s": s, "seq": int(binary.BigEndian.Uint64(fr[8:16])),
@@ -241,6 +265,11 @@ func run(w *vt.Writer, sc *scenario, scn int) {
 		w.Emit(vt.M{"ev": "end"})
 		return
 	}
+	if sc.Mode == "ingress" {
+		runIngress(w, sc, frames, byHash)
+		w.Emit(vt.M{"ev": "end"})
+		return
+	}
 	// network + receiver
 	snk := &sink{}
 	wk := dataplane.VerifNewWorker(snk)
@@ -304,6 +333,130 @@ func run(w *vt.Writer, sc *scenario, scn int) {
 		}
 	}()
 	w.Emit(vt.M{"ev": "end"})
+}
+
+// ---------------------------------------------------------------------------- ingress server
+
+var remotes = []*snet.UDPAddr{
+	{IA: addr.MustParseIA("1-ff00:0:110"), Host: &net.UDPAddr{IP: net.IPv4(10, 1, 0, 1), Port: 30256}},
+	{IA: addr.MustParseIA("1-ff00:0:110"), Host: &net.UDPAddr{IP: net.IPv4(10, 1, 0, 2), Port: 30256}},
+	{IA: addr.MustParseIA("2-ff00:0:220"), Host: &net.UDPAddr{IP: net.IPv4(10, 1, 0, 1), Port: 30256}},
+}
+
+type emitted struct {
+	dev int
+	pkt []byte
+}
+
+type devices struct {
+	mu  sync.Mutex
+	out []emitted
+}
+
+type device struct {
+	d   *devices
+	dev int
+}
+
+func (h *device) Write(b []byte) (int, error) {
+	h.d.mu.Lock()
+	h.d.out = append(h.d.out, emitted{dev: h.dev, pkt: append([]byte(nil), b...)})
+	h.d.mu.Unlock()
+	return len(b), nil
+}
+func (h *device) Read([]byte) (int, error)                          { return 0, io.EOF }
+func (h *device) Close() error                                      { return nil }
+func (h *device) AddRoute(context.Context, *control.Route) error    { return nil }
+func (h *device) DeleteRoute(context.Context, *control.Route) error { return nil }
+
+// Get hands out the tunnel device of a remote ISD-AS: device 1 for the first, 2 for the second ISD-AS.
+func (d *devices) Get(_ context.Context, ia addr.IA) (control.DeviceHandle, error) {
+	dev := 1
+	if ia == remotes[2].IA {
+		dev = 2
+	}
+	return &device{d: d, dev: dev}, nil
+}
+
+type feedConn struct {
+	items  []feedItem
+	next   int
+	finish chan struct{}
+}
+
+type feedItem struct {
+	raw []byte
+	src *snet.UDPAddr
+}
+
+func (c *feedConn) ReadFrom(b []byte) (int, net.Addr, error) {
+	if c.next >= len(c.items) {
+		<-c.finish
+		return 0, &net.UDPAddr{}, nil // not an snet address: ends IngressServer.Run
+	}
+	it := c.items[c.next]
+	c.next++
+	return copy(b, it.raw), it.src, nil
+}
+
+// runIngress feeds the frames of all streams, interleaved but each stream in order and complete, to a real
+// IngressServer (worker selection by remote ISD-AS / host / session id, one goroutine per worker) and logs what
+// the workers write to the tunnel devices.  The last packet of every stream tells that its worker is done.
+func runIngress(w *vt.Writer, sc *scenario, frames [][]frameRec, byHash map[[32]byte]pktID) {
+	devs := &devices{}
+	conn := &feedConn{finish: make(chan struct{})}
+	idx := make([]int, len(frames))
+	for more := true; more; {
+		more = false
+		for si := range frames {
+			if idx[si] < len(frames[si]) {
+				conn.items = append(conn.items, feedItem{raw: frames[si][idx[si]].raw, src: remotes[sc.Streams[si].Src-1]})
+				idx[si]++
+				more = true
+			}
+		}
+	}
+	last := map[pktID]bool{}
+	for si, st := range sc.Streams {
+		for k := len(st.Pkts) - 1; k >= 0; k-- {
+			if st.Pkts[k].Bad == "" {
+				last[pktID{si + 1, k + 1}] = true
+				break
+			}
+		}
+	}
+	srv := &dataplane.IngressServer{Conn: conn, DeviceManager: devs}
+	done := make(chan struct{})
+	go func() {
+		defer close(done)
+		defer func() { _ = recover() }()
+		_ = srv.Run(context.Background())
+	}()
+	deadline := time.Now().Add(90 * time.Second)
+	complete := false
+	for !complete && time.Now().Before(deadline) {
+		time.Sleep(5 * time.Millisecond)
+		devs.mu.Lock()
+		seen := 0
+		for _, e := range devs.out {
+			if last[byHash[sha256.Sum256(e.pkt)]] {
+				seen++
+			}
+		}
+		devs.mu.Unlock()
+		complete = seen >= len(last)
+	}
+	close(conn.finish)
+	<-done
+	devs.mu.Lock()
+	defer devs.mu.Unlock()
+	for _, e := range devs.out {
+		id := byHash[sha256.Sum256(e.pkt)]
+		w.Emit(vt.M{"ev": "emit", "s": id.s, "id": id.id, "len": len(e.pkt), "dev": e.dev})
+	}
+	if !complete {
+		w.Emit(vt.M{"ev": "timeout"})
+	}
 }
 
 func main() {
